@@ -180,8 +180,8 @@ class Ctx:
             f.write(cfg)
         w = workers or min(NCPU, 16)
         cmd = ["timeout", str(timeout), "java", "-XX:+UseParallelGC", "-XX:ParallelGCThreads=%d" % max(2, min(w, 8)), "-Xss64m"]
-        if heap:
-            cmd.append("-Xmx" + heap)
+        # TLC would otherwise take 25 % of the machine's RAM per JVM; several run side by side
+        cmd.append("-Xmx" + (heap or ("6g" if w >= 8 else "3g")))
         if dfs:
             cmd.append("-Dtlc2.tool.queue.IStateQueue=StateDeque")
         cmd += ["-cp", "/opt/veriftools/tla/tla2tools.jar:/opt/veriftools/tla/CommunityModules-deps.jar",
